@@ -350,6 +350,16 @@ def compare(rec, res_real, rep, tol_abs):
 
 # ------------------------------------------------------------------ run
 
+EVIDENCE_EXTRA = {}
+
+
+def anchored_functions():
+    import t2grids, mulgrids, geometry
+    G, M = t2grids.t2grid, mulgrids.mulgrid
+    return [G.rectgeo, M.rectangular, M.add_layers, M.rotate, M.translate, M.snap_columns_to_layers, M.set_column_num_layers,
+            M.identify_layer_tops, M.set_default_surface, geometry.vector_heading]
+
+
 def describe(rec):
     return 'rect %dx%dx%d conv %d->%d atm %d atmvol %g angle %s surf %s snap %g%s' % (
         len(rec['dx']), len(rec['dy']), len(rec['dz']), rec['conv'], rec['conv1'], rec['atm'], rec['atmvol'], rec['angle'],
@@ -449,6 +459,15 @@ def run(ctx, scale=1.0, oracle_only=False):
     else:
         for rec in cases[:6]:
             res.sample({'case': describe(rec)})
+    if not ctx.quick and not oracle_only:
+        from props.c04 import measure_reach
+        sub = cases[:200]
+
+        def thunk():
+            for rec in sub:
+                geo0, grid = build(rec)
+                run_rectgeo(grid, rec)
+        EVIDENCE_EXTRA['measured_reach'] = measure_reach(thunk, anchored_functions())
     return res
 
 
